@@ -217,6 +217,8 @@ def run(c, a):
         if c.tier == "quick":
             want = [["Silent", "Good", "Cancel"], ["Good", "PeerClose", "Silent", "Good", "Cancel"]]
             got = [x for x in got if [y["a"] for y in x] in want]
+        else:
+            got = got[:6]
         scheds += [{"n": 1, "cmds": x, "rcv": True} for x in got]
         c.coverage["receiver_probe_schedules"] = len(got)
         scheds = scheds + loops
